@@ -53,6 +53,7 @@ def run(ctx, rec):
         drive(ctx, rec, corpus.equal_valued_params(ctx, rng, 4 if q else 20))
         drive(ctx, rec, corpus.twin_externals(ctx, rng, 1 if q else 3))
         drive(ctx, rec, corpus.edited_externals(ctx, rng, 2 if q else 6))
+        drive(ctx, rec, corpus.edited_fields(ctx, rng, 1))
         drive(ctx, rec, corpus.reimported_externals(ctx, rng, 1 if q else 3))
     if WF:
         hostile = list(corpus.hostile_designs(ctx, rng, 12 if q else 120))
